@@ -553,7 +553,7 @@ func c18NewDev(spec ttyCons) (c18Dev, error) {
 	}
 	switch spec.Kind {
 	case "grid":
-		return &c18Grid{g: newGridCons(spec.W, spec.H)}, nil
+		return &c18Grid{g: newGridConsFor(spec)}, nil
 	case "vga":
 		return c18NewVga(spec)
 	case "fb":
@@ -595,6 +595,7 @@ func c18Run(c ttyCase) (fail *vlib.Failure, st c18Stats, herr error) {
 		return nil, st, err
 	}
 	devs = append(devs, dev)
+	ttyOthers = nil
 	vt := NewVT(c.Tab, c.Scrollback)
 	var ref *refTerm
 	active := false
@@ -679,7 +680,7 @@ func c18Run(c ttyCase) (fail *vlib.Failure, st c18Stats, herr error) {
 				if pc := attach(dev); pc.Panicked {
 					return vlib.Failf("%s: %v", when(), pc), st, nil
 				}
-			case "b", "w", "cur", "state":
+			case "b", "w", "cur", "state", "other":
 				if s.K == "state" {
 					if s.On && !active {
 						st.activations++
